@@ -40,4 +40,15 @@ def zeroKindsAll : List String :=
 
 def zeroUnhandled : List String := zeroKindsAll.filter (fun k => !(zeroCases.map (·.1)).contains k)
 
+/-- substring test on character lists -/
+def infixC (needle : List Char) : List Char → Bool
+  | [] => needle.isEmpty
+  | c :: cs => (needle.isPrefixOf (c :: cs)) || infixC needle cs
+
+/-- single-value type assertions of the front end / generator that target a go/ast node type: such an
+    assertion panics on an unexpected (but type-correct) spelling of a marker-function argument -/
+def astShapeAsserts : List String :=
+  (uncheckedAssertsParse ++ uncheckedAssertsWire ++ uncheckedAssertsAnalyze).filter
+    (fun s => infixC "(*ast.".toList s.toList || infixC "(ast.".toList s.toList)
+
 end WireV
